@@ -9,7 +9,7 @@ CONSTANTS
   Amounts = {1, 3, 10, 25}
   Pairs = 2
   WdAmounts = {10, 100}
-  CfgIds = {1, 2, 3, 4, 5, 6, 7, 8, 9, 10, 11, 12}
+  CfgIds = {1, 2, 3, 4, 5, 6, 7, 8, 9, 10, 11, 12, 13, 14}
   ScenIds = {1, 2, 3, 4, 5, 6}
   FixIds = {0, 1, 2, 3}
   VaryPrices = TRUE
